@@ -244,7 +244,7 @@ def oracle_policy(c, obs):
 
 
 # --------------------------------------------------------------------------- family: cached
-UNIT = 1.0 / 1024.0     # one time unit in seconds (dyadic: exact in binary floating point)
+UNIT = 1.0 / 512.0      # one time unit in seconds: exact in binary floating point and exactly 1953125 ns
 
 
 def gen_cached(rng):
@@ -577,6 +577,501 @@ def nontrivial_cached(c, obs):
     return any(e["snap"]["stats"][4] > 0 for e in obs["log"][-1:])
 
 
+
+# --------------------------------------------------------------------------- family: sttl
+IMPORTS_TTL = "From HS Require Import Base.Prelude C16.Model C16.ModelTTL."
+UNIT_NS = 1953125
+
+
+def gen_sttl(rng):
+    nkeys = rng.randint(1, 4)
+    cap = rng.choice([None, 1, 2, 3])
+    soft = rng.choice([0, 4, 8, 20])
+    hard = soft + rng.choice([0, 3, 10, 30])
+    lat = dict(c=rng.choice([1, 2]), r=rng.choice([3, 6, 10]), w=rng.choice([4, 5, 12]))
+    external = rng.random() < 0.35
+    style = rng.choice(["sequential", "overlap", "overlap", "burst"])
+    ops, t, val = [], 0, 100
+    for _ in range(rng.randint(3, 28)):
+        if style == "sequential":
+            t += rng.choice([15, 20, 33])
+        elif style == "overlap":
+            t += rng.choice([0, 1, 1, 2, 3, 4, 6, 9, 15, soft, hard])
+        else:
+            t += rng.choice([0, 0, 1, 30])
+        k = rng.randrange(nkeys)
+        r = rng.random()
+        if r < 0.55:
+            ops.append([t, "get", k])
+        elif r < 0.80:
+            val += 1
+            ops.append([t, "put", k, val])
+        elif r < 0.86:
+            ops.append([t, "inv", k])
+        elif r < 0.89:
+            ops.append([t, "invall"])
+        elif external and r < 0.95:
+            ops.append([t, "bdel", k])
+        elif external:
+            val += 1
+            ops.append([t, "bput", k, val])
+        else:
+            ops.append([t, "get", k])
+    t += 40
+    for k in range(nkeys):
+        ops.append([t, "get", k])
+        t += 25
+    init = {str(k): 10 + k for k in range(nkeys) if rng.random() < 0.7}
+    return dict(cap=cap, soft=soft, hard=hard, lat=lat, init=init, ops=ops, style=style, external=external)
+
+
+def _tsnap(cache):
+    def val(v):
+        return -1 if v is None else v
+    return dict(
+        cache=[[unk(k), val(e.value), e.cached_at.nanoseconds] for k, e in cache._cache.items()],
+        refreshing=sorted(unk(k) for k in cache._refreshing_keys),
+        order=[unk(k) for k in cache._access_order],
+        back=[[unk(k), val(v)] for k, v in cache._backing_store._data.items()],
+        stats=[cache._reads, cache._fresh_hits, cache._stale_hits, cache._hard_misses, cache._background_refreshes,
+               cache._refresh_successes, cache._coalesced_requests, cache._evictions],
+        size=cache.cache_size,
+    )
+
+
+def impl_sttl(c):
+    from happysimulator.components.datastore.kv_store import KVStore
+    from happysimulator.components.datastore.soft_ttl_cache import SoftTTLCache
+    from happysimulator.core.entity import Entity
+    from happysimulator.core.event import Event
+    from happysimulator.core.simulation import Simulation
+    from happysimulator.core.temporal import Instant
+    from hsverif.util import run_bounded
+
+    lat = c["lat"]
+    log = []
+    backing = KVStore("backing", read_latency=lat["r"] * UNIT, write_latency=lat["w"] * UNIT)
+    for k, v in c["init"].items():
+        backing.put_sync(K(k), v)
+    cache = SoftTTLCache("sttl", backing, soft_ttl=c["soft"] * UNIT, hard_ttl=c["hard"] * UNIT,
+                         cache_capacity=c["cap"], cache_read_latency=lat["c"] * UNIT)
+    counter = {"rid": 1000}
+
+    def rec(oid, seg, kind, val, spawn=False, key=None):
+        log.append(dict(oid=oid, seg=seg, now=cache.now.nanoseconds, kind=kind, val=val, spawn=spawn, key=key,
+                        snap=_tsnap(cache)))
+
+    orig = cache.handle_event
+
+    def wrapped(ev):
+        if ev.event_type != "_sttl_refresh":
+            return orig(ev)
+        rid = counter["rid"]
+        counter["rid"] += 1
+        key = unk(ev.context["metadata"]["key"])
+
+        def g():
+            gen = orig(ev)
+            seg = 0
+            while True:
+                try:
+                    d = next(gen)
+                except StopIteration as e:
+                    rec(rid, seg, "ret", None, key=key)
+                    return e.value
+                rec(rid, seg, "yield", round(d / UNIT), key=key)
+                seg += 1
+                yield d
+        return g()
+
+    cache.handle_event = wrapped
+
+    class Driver(Entity):
+        def handle_event(self, ev):
+            oid = ev.context["oid"]
+            o = c["ops"][oid]
+            name = o[1]
+            if name == "get":
+                gen = cache.get(K(o[2]))
+            elif name == "put":
+                gen = cache.put(K(o[2]), o[3])
+            else:
+                if name == "inv":
+                    cache.invalidate(K(o[2]))
+                elif name == "invall":
+                    cache.invalidate_all()
+                elif name == "bput":
+                    backing.put_sync(K(o[2]), o[3])
+                elif name == "bdel":
+                    backing.delete_sync(K(o[2]))
+                rec(oid, 0, "ret", None)
+                return
+            seg = 0
+            while True:
+                try:
+                    d = next(gen)
+                except StopIteration as e:
+                    rec(oid, seg, "ret", e.value)
+                    return
+                if isinstance(d, tuple):
+                    rec(oid, seg, "yield", round(d[0] / UNIT), spawn=bool(d[1]))
+                else:
+                    rec(oid, seg, "yield", round(d / UNIT))
+                seg += 1
+                yield d
+
+    drv = Driver("driver")
+    sim = Simulation(entities=[backing, cache, drv])
+    for oid, o in enumerate(c["ops"]):
+        sim.schedule(Event(time=Instant.from_seconds(o[0] * UNIT), event_type="op", target=drv, context={"oid": oid}))
+    _, verdict = run_bounded(sim, wall_s=20.0)
+    return dict(log=log, verdict=verdict, soft_ns=cache.soft_ttl.nanoseconds, hard_ns=cache.hard_ttl.nanoseconds)
+
+
+def _tsnap_term(s, u=1):
+    ca = [(e[0], (e[1], e[2] // u)) for e in s["cache"]] if s["cache"] else Raw("(@nil (Z * (Z * Z)))")
+    return (ca, _zl(s["refreshing"]), _zl(s["order"]), _pairs(s["back"]), s["stats"])
+
+
+def _sttl_unit(obs):
+    """All instants are exact multiples of UNIT_NS (UNIT is dyadic): send them in units; fall back to ns."""
+    vals = [obs["soft_ns"], obs["hard_ns"]]
+    for e in obs["log"]:
+        vals.append(e["now"])
+        vals += [x[2] for x in e["snap"]["cache"]]
+    return UNIT_NS if all(v % UNIT_NS == 0 for v in vals) else 1
+
+
+def encode_sttl(c, obs):
+    tr = []
+    u = _sttl_unit(obs)
+    for e in obs["log"]:
+        if e["seg"] == 0:
+            if e["oid"] >= 1000:
+                op = Ctor("TRefresh", e["key"])
+            else:
+                o = c["ops"][e["oid"]]
+                op = {"get": lambda: Ctor("TGet", o[2]), "put": lambda: Ctor("TPut", o[2], o[3]),
+                      "inv": lambda: Ctor("TInv", o[2]), "invall": lambda: Ctor("TInvAll"),
+                      "bput": lambda: Ctor("TBackPut", o[2], o[3]), "bdel": lambda: Ctor("TBackDel", o[2])}[o[1]]()
+            act = Ctor("TStart", e["oid"], op)
+        else:
+            act = Ctor("TResume", e["oid"])
+        inp = Ctor("Build_tinput", e["now"] // u, act)
+        if e["kind"] == "yield":
+            out = Ctor("TOYield", e["val"], e["spawn"])
+        else:
+            out = Ctor("TORet", None if e["val"] is None else SomeV(e["val"]))
+        tr.append((inp, out, _tsnap_term(e["snap"], u)))
+    lat = c["lat"]
+    cap = None if c["cap"] is None else SomeV(c["cap"])
+    cfg = Ctor("Build_tcfg", obs["soft_ns"] // u, obs["hard_ns"] // u, cap, lat["c"], lat["r"], lat["w"])
+    b0 = _pairs([[int(k), v] for k, v in c["init"].items()])
+    return term((cfg, b0, tr if tr else Raw("[]")))
+
+
+def oracle_sttl(c, obs):
+    fails = []
+    log, ops = obs["log"], c["ops"]
+    if obs["verdict"] != "ok":
+        return [dict(clause="run terminates", verdict=obs["verdict"])]
+    info = {}
+    for idx, e in enumerate(log):
+        d = info.setdefault(e["oid"], dict(start=idx, ret=None, val=None, segs=[]))
+        d["segs"].append(idx)
+        if e["kind"] == "ret":
+            d["ret"], d["val"] = idx, e["val"]
+    if any(oid not in info or info[oid]["ret"] is None for oid in range(len(ops))):
+        return [dict(clause="every operation completes")]
+    hard = obs["hard_ns"]
+    lat = c["lat"]
+    # capacity and LRU bookkeeping
+    for idx, e in enumerate(log):
+        s = e["snap"]
+        keys = [x[0] for x in s["cache"]]
+        if c["cap"] is not None and (s["size"] > c["cap"] or len(keys) > c["cap"]):
+            fails.append(dict(clause="capacity: cache holds at most its capacity", step=idx))
+            break
+        if sorted(s["order"]) != sorted(keys) or len(set(s["order"])) != len(s["order"]):
+            fails.append(dict(clause="LRU order tracks exactly the cached keys", step=idx, order=s["order"], keys=keys))
+            break
+    # hard TTL: an entry served from the cache is younger than the hard TTL when the decision is made
+    for oid, o in enumerate(ops):
+        if o[1] != "get":
+            continue
+        g = info[oid]
+        first = log[g["start"]]
+        pre = log[g["start"] - 1]["snap"] if g["start"] > 0 else dict(cache=[], refreshing=[])
+        entry = {x[0]: x for x in pre["cache"]}.get(o[2])
+        if first["kind"] == "yield" and first["val"] == lat["c"]:
+            if entry is None or first["now"] - entry[2] >= hard:
+                fails.append(dict(clause="soft TTL: never serves an entry older than its hard TTL", path="hit", get_op=oid,
+                                  age=None if entry is None else first["now"] - entry[2], hard=hard))
+        elif first["kind"] == "yield" and o[2] in pre["refreshing"] and g["val"] is not None:
+            last = log[g["ret"]]
+            pre2 = log[g["ret"] - 1]["snap"]
+            entry2 = {x[0]: x for x in pre2["cache"]}.get(o[2])
+            if entry2 is None or last["now"] - entry2[2] >= hard:
+                fails.append(dict(clause="soft TTL: never serves an entry older than its hard TTL", path="coalesced",
+                                  mechanism="coalesced-expired", get_op=oid,
+                                  age=None if entry2 is None else last["now"] - entry2[2], hard=hard))
+    # read-after-write for keys only written through the cache
+    ext = {o[2] for o in ops if o[1] in ("bput", "bdel")}
+    writes = {}
+    for oid, o in enumerate(ops):
+        if o[1] == "put":
+            writes.setdefault(o[2], []).append(dict(start=info[oid]["start"], ret=info[oid]["ret"], val=o[3]))
+    for k in range(6):
+        writes.setdefault(k, []).append(dict(start=-2, ret=-1, val=c["init"].get(str(k))))
+    for oid, o in enumerate(ops):
+        if o[1] != "get" or o[2] in ext:
+            continue
+        g = info[oid]
+        ws = writes[o[2]]
+        done = [w for w in ws if w["ret"] < g["start"]]
+        allowed = {w["val"] for w in ws if w["start"] < g["ret"] and not any(w["ret"] < w2["start"] for w2 in done)}
+        if g["val"] not in allowed:
+            fails.append(dict(clause="a read issued after a completed write returns that write's value or a later one",
+                              component="SoftTTLCache", key=o[2], got=g["val"], allowed=sorted(allowed, key=str), get_op=oid))
+            break
+    return fails[:3]
+
+
+def nontrivial_sttl(c, obs):
+    return any(e["snap"]["stats"][2] > 0 or e["snap"]["stats"][7] > 0 for e in obs["log"][-1:])
+
+
+
+# --------------------------------------------------------------------------- family: mt (MultiTierCache)
+IMPORTS_MT = "From HS Require Import Base.Prelude C16.Model C16.ModelMT."
+
+
+def gen_mt(rng):
+    k1, p1 = gen_kind(rng)
+    k2, p2 = gen_kind(rng)
+    if k1 == "ttl":
+        p1 = rng.choice([2, 8, 30, 200])
+    if k2 == "ttl":
+        p2 = rng.choice([2, 8, 30, 200])
+    nkeys = rng.randint(2, 5)
+    lat = dict(c1=1, c2=rng.choice([2, 3]), r=rng.choice([6, 10]), w=rng.choice([4, 5, 12]), d=rng.choice([7, 9]))
+    style = rng.choice(["sequential", "overlap", "overlap", "burst"])
+    ops, t, val = [], 0, 100
+    for _ in range(rng.randint(3, 24)):
+        if style == "sequential":
+            t += 45
+        elif style == "overlap":
+            t += rng.choice([0, 1, 1, 2, 3, 4, 6, 9, 15])
+        else:
+            t += rng.choice([0, 0, 1, 30])
+        k = rng.randrange(nkeys)
+        r = rng.random()
+        if r < 0.40:
+            ops.append([t, "get", k])
+        elif r < 0.66:
+            val += 1
+            ops.append([t, "put", k, val])
+        elif r < 0.74:
+            ops.append([t, "del", k])
+        elif r < 0.80:
+            ops.append([t, "inv", k])
+        elif r < 0.83:
+            ops.append([t, "invall"])
+        else:
+            ops.append([t, "l2get", k])
+    t += 60
+    for k in range(nkeys):
+        ops.append([t, "get", k])
+        t += 45
+    init = {str(k): 10 + k for k in range(nkeys) if rng.random() < 0.6}
+    return dict(k1=k1, p1=p1, k2=k2, p2=p2, seed=rng.randrange(1000), cap1=rng.randint(1, 2), cap2=rng.randint(1, 3),
+                wt1=rng.random() < 0.6, promote=rng.choice(["always", "on_second_access", "never"]),
+                lat=lat, init=init, ops=ops, style=style)
+
+
+def _tier_snap(kind, t):
+    return dict(cache=[[unk(k), -1 if v is None else v] for k, v in t._cache.items()],
+                dirty=sorted(unk(k) for k in t._dirty_keys), view=policy_view(kind, t._eviction_policy),
+                stats=[t._reads, t._writes, t._hits, t._misses, t._evictions, t._writebacks], size=t.cache_size)
+
+
+def impl_mt(c):
+    from happysimulator.components.datastore.cached_store import CachedStore
+    from happysimulator.components.datastore.kv_store import KVStore
+    from happysimulator.components.datastore.multi_tier_cache import MultiTierCache
+    from happysimulator.core.entity import Entity
+    from happysimulator.core.event import Event
+    from happysimulator.core.simulation import Simulation
+    from happysimulator.core.temporal import Instant
+    from hsverif.util import run_bounded
+
+    lat = c["lat"]
+    log = []
+    holder = {}
+
+    def tick():
+        return holder["drv"].now.nanoseconds // 1000
+
+    pol1 = make_policy(c["k1"], c["p1"], c["seed"], tick)
+    pol2 = make_policy(c["k2"], c["p2"], c["seed"] + 1, tick)
+    backing = KVStore("backing", read_latency=lat["r"] * UNIT, write_latency=lat["w"] * UNIT, delete_latency=lat["d"] * UNIT)
+    for k, v in c["init"].items():
+        backing.put_sync(K(k), v)
+    t1 = CachedStore("l1", backing, c["cap1"], pol1, cache_read_latency=lat["c1"] * UNIT, write_through=c["wt1"])
+    t2 = CachedStore("l2", backing, c["cap2"], pol2, cache_read_latency=lat["c2"] * UNIT, write_through=True)
+    mt = MultiTierCache("mt", [t1, t2], backing, promotion_policy=c["promote"])
+
+    def draws():
+        out = []
+        for p in (pol1, pol2):
+            r = getattr(p, "_rng", None)
+            if isinstance(r, RecRng):
+                out += r.take()
+        return out
+
+    def snap():
+        st = mt.stats
+        return dict(l1=_tier_snap(c["k1"], t1), l2=_tier_snap(c["k2"], t2),
+                    back=[[unk(k), -1 if v is None else v] for k, v in backing._data.items()],
+                    counts=[[unk(k), n] for k, n in mt._access_counts.items()],
+                    stats=[st.reads, st.writes, st.tier_hits.get(0, 0), st.tier_hits.get(1, 0), st.backing_store_hits,
+                           st.misses, st.promotions])
+
+    class Driver(Entity):
+        def handle_event(self, ev):
+            oid = ev.context["oid"]
+            o = c["ops"][oid]
+            name = o[1]
+            if name == "get":
+                gen = mt.get(K(o[2]))
+            elif name == "put":
+                gen = mt.put(K(o[2]), o[3])
+            elif name == "del":
+                gen = mt.delete(K(o[2]))
+            elif name == "l2get":
+                gen = t2.get(K(o[2]))
+            else:
+                if name == "inv":
+                    mt.invalidate(K(o[2]))
+                else:
+                    mt.invalidate_all()
+                log.append(dict(oid=oid, seg=0, now=tick(), kind="ret", val=None, draws=draws(), snap=snap()))
+                return
+            seg = 0
+            while True:
+                try:
+                    d = next(gen)
+                except StopIteration as e:
+                    v = e.value
+                    if isinstance(v, bool):
+                        v = int(v)
+                    log.append(dict(oid=oid, seg=seg, now=tick(), kind="ret", val=v, draws=draws(), snap=snap()))
+                    return
+                log.append(dict(oid=oid, seg=seg, now=tick(), kind="yield", val=round(d / UNIT), draws=draws(), snap=snap()))
+                seg += 1
+                yield d
+
+    drv = Driver("driver")
+    holder["drv"] = drv
+    sim = Simulation(entities=[backing, t1, t2, mt, drv])
+    for oid, o in enumerate(c["ops"]):
+        sim.schedule(Event(time=Instant.from_seconds(o[0] * UNIT), event_type="op", target=drv, context={"oid": oid}))
+    _, verdict = run_bounded(sim, wall_s=20.0)
+    return dict(log=log, verdict=verdict)
+
+
+def _tier_term(s):
+    return (_pairs(s["cache"]), _zl(s["dirty"]), [_zl(v) for v in s["view"]], s["stats"])
+
+
+def encode_mt(c, obs):
+    tr = []
+    for e in obs["log"]:
+        o = c["ops"][e["oid"]]
+        if e["seg"] == 0:
+            op = {"get": lambda: Ctor("MGet", o[2]), "put": lambda: Ctor("MPut", o[2], o[3]),
+                  "del": lambda: Ctor("MDel", o[2]), "inv": lambda: Ctor("MInv", o[2]),
+                  "invall": lambda: Ctor("MInvAll"), "l2get": lambda: Ctor("ML2Get", o[2])}[o[1]]()
+            act = Ctor("MStart", e["oid"], op)
+        else:
+            act = Ctor("MResume", e["oid"])
+        dr = e["draws"] if e["draws"] else Raw("(@nil (list Z))")
+        inp = Ctor("Build_minput", e["now"], dr, act)
+        out = Ctor("OYield", e["val"]) if e["kind"] == "yield" else Ctor("ORet", None if e["val"] is None else SomeV(e["val"]))
+        s = e["snap"]
+        tr.append((inp, out, (_tier_term(s["l1"]), _tier_term(s["l2"]), _pairs(s["back"]), _pairs(s["counts"]), s["stats"])))
+    lat = c["lat"]
+    cf1 = Ctor("Build_cfg", c["cap1"], c["wt1"], lat["c1"], lat["r"], lat["w"], lat["d"])
+    cf2 = Ctor("Build_cfg", c["cap2"], True, lat["c2"], lat["r"], lat["w"], lat["d"])
+    pr = Ctor({"always": "PAlways", "on_second_access": "PSecond", "never": "PNever"}[c["promote"]])
+    b0 = _pairs([[int(k), v] for k, v in c["init"].items()])
+    return term((kind_term(c["k1"], c["p1"]), kind_term(c["k2"], c["p2"]), Ctor("Build_mcfg", cf1, cf2, pr), b0,
+                 tr if tr else Raw("[]")))
+
+
+WHAT["mt-stale-install"] = ("MultiTierCache.get installs a value it read earlier (tier-2 hit to promote, or a backing read to "
+                            "cache) into tier 1 after a put/delete of the same key has gone through")
+
+
+def oracle_mt(c, obs):
+    fails = []
+    log, ops = obs["log"], c["ops"]
+    if obs["verdict"] != "ok":
+        return [dict(clause="run terminates", verdict=obs["verdict"])]
+    info = {}
+    for idx, e in enumerate(log):
+        d = info.setdefault(e["oid"], dict(start=idx, ret=None, val=None, segs=[]))
+        d["segs"].append(idx)
+        if e["kind"] == "ret":
+            d["ret"], d["val"] = idx, e["val"]
+    if len(info) != len(ops) or any(d["ret"] is None for d in info.values()):
+        return [dict(clause="every operation completes")]
+    for idx, e in enumerate(log):
+        for name, kind, cap in (("l1", c["k1"], c["cap1"]), ("l2", c["k2"], c["cap2"])):
+            s = e["snap"][name]
+            keys = [x[0] for x in s["cache"]]
+            if s["size"] > cap or len(keys) > cap:
+                fails.append(dict(clause="capacity: cache holds at most its capacity", tier=name, step=idx))
+            tk = tracked_keys(kind, s["view"])
+            if sorted(tk) != sorted(keys) or len(set(tk)) != len(tk):
+                fails.append(dict(clause="policy keys are exactly the cached keys", tier=name, step=idx))
+        if fails:
+            return fails[:2]
+    # read-after-write through the multi-tier API (tier 1 write-through only: write-back tiers keep
+    # data away from the backing store by design until flushed)
+    writes = {}
+    for oid, o in enumerate(ops):
+        if o[1] in ("put", "del"):
+            writes.setdefault(o[2], []).append(dict(start=info[oid]["start"], ret=info[oid]["ret"],
+                                                    val=o[3] if o[1] == "put" else None, oid=oid))
+    for k in range(6):
+        writes.setdefault(k, []).append(dict(start=-2, ret=-1, val=c["init"].get(str(k)), oid=-1))
+    for oid, o in enumerate(ops):
+        if o[1] != "get":
+            continue
+        g = info[oid]
+        ws = writes[o[2]]
+        done = [w for w in ws if w["ret"] < g["start"]]
+        allowed = {w["val"] for w in ws if w["start"] < g["ret"] and not any(w["ret"] < w2["start"] for w2 in done)}
+        if g["val"] not in allowed:
+            # a get (through mt or directly on tier 2) of this key that was in flight across a write of it
+            mech = "stale-read"
+            for goid, o2 in enumerate(ops):
+                if o2[1] in ("get", "l2get") and o2[2] == o[2] and info[goid]["ret"] <= g["ret"]:
+                    gi = info[goid]
+                    if any(w["oid"] >= 0 and w["start"] < gi["ret"] and gi["start"] < w["ret"] for w in ws):
+                        mech = "mt-stale-install"
+            fails.append(dict(clause="a read issued after a completed write returns that write's value or a later one",
+                              component="MultiTierCache", mechanism=mech, key=o[2], got=g["val"],
+                              allowed=sorted(allowed, key=str), get_op=oid, what=WHAT.get(mech, "")))
+            break
+    return fails
+
+
+def attribute_mt(c, obs, f):
+    return {"mt-stale-install": "C16-mt-stale-install"}.get(f.get("mechanism"))
+
+
 FAMILIES = [
     Family("policy", IMPORTS, "ok_policy", "pkind * list (pop_ * option Z * list (list Z))", gen_policy, impl_policy,
            encode_policy, oracle_policy, lambda c, o: any(x[0] == "evict" for x in c["ops"]),
@@ -584,9 +1079,16 @@ FAMILIES = [
     Family("cached", IMPORTS, "ok_cache", "cache_case", gen_cached, impl_cached,
            encode_cached, oracle_cached, nontrivial_cached, attribute_cached, parallel=True,
            describe=lambda c: f"{c['kind']},{'wt' if c['wt'] else 'wb'},{c['style']}"),
+    Family("sttl", IMPORTS_TTL, "ok_sttl", "sttl_case", gen_sttl, impl_sttl,
+           encode_sttl, oracle_sttl, nontrivial_sttl, parallel=True,
+           describe=lambda c: f"cap={c['cap']},{c['style']},{'ext' if c['external'] else 'own'}"),
+    Family("mt", IMPORTS_MT, "ok_mt", "mt_case", gen_mt, impl_mt,
+           encode_mt, oracle_mt, lambda c, o: any(e["snap"]["stats"][3] > 0 or e["snap"]["stats"][6] > 0 for e in o["log"][-1:]),
+           attribute_mt, parallel=True,
+           describe=lambda c: f"{c['promote']},{'wt' if c['wt1'] else 'wb'},{c['style']}"),
 ]
 
-PROOF_FILES = ["C16/Model.v", "C16/Lists.v", "C16/Policies.v", "C16/Store.v", "C16/Races.v", "C16/Seq.v", "C16/Props.v"]
+PROOF_FILES = ["C16/Model.v", "C16/Lists.v", "C16/Policies.v", "C16/Store.v", "C16/Races.v", "C16/Seq.v", "C16/ModelTTL.v", "C16/SoftTTL.v", "C16/ModelMT.v", "C16/MT.v", "C16/Props.v"]
 
 TRUSTED = [
     "Coq 8.16.1 kernel (coqc, vm_compute for refutation witnesses and case evaluation); no native_compute",
@@ -596,11 +1098,24 @@ TRUSTED = [
 ]
 
 
+def _fast_coq_cases(ctx):
+    """Smaller shards than the framework default: the case terms carry a full state
+    snapshot per segment, and parsing them dominates the Coq time."""
+    from hsverif import coq
+
+    def coq_cases(tag, imports, ok_fn, case_type, cases):
+        return coq.eval_cases(f"{ctx.pid}_{tag}", imports, ok_fn, case_type, cases, shard=40, workers=12)
+    ctx.coq_cases = coq_cases
+
+
 def run(ctx):
+    _fast_coq_cases(ctx)
     ctx.prove(PROOF_FILES, allowed_axioms=(), trusted_base=TRUSTED)
     stats = [
-        run_family(ctx, FAMILIES[0], ctx.n(400, 6000)),
-        run_family(ctx, FAMILIES[1], ctx.n(300, 5000)),
+        run_family(ctx, FAMILIES[0], ctx.n(150, 2500)),
+        run_family(ctx, FAMILIES[1], ctx.n(90, 1200)),
+        run_family(ctx, FAMILIES[2], ctx.n(90, 1200)),
+        run_family(ctx, FAMILIES[3], ctx.n(70, 900)),
     ]
     merge_stats(ctx, stats, "random structured op sequences; non-trivial = contains an eviction; distinct by JSON of the input")
     ctx.finish_obligations()
